@@ -313,15 +313,24 @@ Section Roundtrip.
     | GString s => Forall cp_ok s
     | GFloat m e txt => exists z, txt = Z_decimal z /\ rounds_to z 0 m e = true
     | GList vs => (fix all (l : list gval) : Prop := match l with [] => True | x :: r => printable x /\ all r end) vs
-    | GMap _ => False
+    | GMap kvs => (fix all (l : list (name * gval)) : Prop := match l with [] => True | kv :: r => printable (snd kv) /\ all r end) kvs
     | _ => True
     end.
+
+  (** input field names are GraphQL names (InputObjectType.shallowValidate: isName) *)
+  Definition field_name_ok (k : name) : Prop :=
+    match k with [] => False | b :: r => is_name_start b = true /\ Forall (fun c => is_name_char c = true) r end.
+  Definition inputs_ok : Prop :=
+    forall n defs r rc d, lookup n (types S) = Some (NInput defs r rc d) -> Forall (fun p => field_name_ok (fst p)) defs.
 
   Fixpoint need (v : gval) : nat :=
     match v with
     | GList vs =>
         Datatypes.S (Datatypes.S (Nat.add (length vs)
           ((fix sum (l : list gval) : nat := match l with [] => O | x :: r => Nat.add (need x) (sum r) end) vs)))
+    | GMap kvs =>
+        Datatypes.S (Datatypes.S (Nat.add (length kvs)
+          ((fix sum (l : list (name * gval)) : nat := match l with [] => O | kv :: r => Nat.add (need (snd kv)) (sum r) end) kvs)))
     | _ => Datatypes.S O
     end.
 
@@ -484,6 +493,7 @@ Section Roundtrip.
   Qed.
 
   Hypothesis Henums : enums_ok.
+  Hypothesis Hinputs : inputs_ok.
 
   Lemma enum_roundtrip v t tn vals r d :
     match v with GInt _ | GString _ | GBool _ => True | _ => False end ->
@@ -714,7 +724,277 @@ Section Roundtrip.
     destruct Hc2 as [cs [E1 E2]]. rewrite E1. eauto.
   Qed.
 
-  (** every value without input objects *)
+
+  (** input objects *)
+  Lemma take_while_stop nm c rest :
+    Forall (fun x => is_name_char x = true) nm -> is_name_char c = false ->
+    take_while is_name_char (nm ++ c :: rest) = (nm, c :: rest).
+  Proof.
+    induction 1 as [|x r Hx Hr IH]; intro Hc; simpl.
+    - rewrite Hc. reflexivity.
+    - rewrite Hx, IH by auto. reflexivity.
+  Qed.
+
+  Lemma pobject_sep fuel bs : pobject fuel (44 :: 32 :: bs) = pobject fuel bs.
+  Proof. destruct fuel; [reflexivity|]. cbn [pobject]. rewrite skip_ignored_sep. reflexivity. Qed.
+
+  Lemma pvalue_sp fuel bs : pvalue fuel (32 :: bs) = pvalue fuel bs.
+  Proof. destruct fuel; reflexivity. Qed.
+
+  (** entries: key, printed value, literal, fuel needed *)
+  Definition entry_ok (it : name * bytes * lit * nat) : Prop :=
+    match it with
+    | (k, txt, l, nd) =>
+        field_name_ok k /\ head_ok txt /\
+        forall fuel rest, follow_ok rest -> (nd <= fuel)%nat -> pvalue fuel (txt ++ rest) = Some (l, rest)
+    end.
+  Definition entry_text (it : name * bytes * lit * nat) : bytes :=
+    match it with (k, txt, _, _) => k ++ [58; 32] ++ txt end.
+  Definition entry_lit (it : name * bytes * lit * nat) : name * lit :=
+    match it with (k, _, l, _) => (k, l) end.
+  Definition entry_need (it : name * bytes * lit * nat) : nat := match it with (_, _, _, nd) => nd end.
+  Fixpoint sum_need_e (items : list (name * bytes * lit * nat)) : nat :=
+    match items with [] => O | it :: r => Nat.add (entry_need it) (sum_need_e r) end.
+
+  Lemma pobject_entry k txt l nd fuel rest' :
+    entry_ok (k, txt, l, nd) -> follow_ok rest' -> (nd <= fuel)%nat ->
+    forall tail, pobject fuel rest' = Some tail ->
+    pobject (Datatypes.S fuel) (entry_text (k, txt, l, nd) ++ rest') = Some ((k, l) :: fst tail, snd tail).
+  Proof.
+    intros [Hk [Hh Hp]] Hf Hfu tail Ht. unfold entry_text.
+    destruct k as [|b r]; [contradiction|]. destruct Hk as [Hb Hr].
+    destruct (name_start_facts b Hb) as [F1 [F2 [F3 [F4 F5]]]].
+    rewrite <- app_assoc. cbn [app pobject]. rewrite skip_ignored_id by exact F1.
+    assert (b =? 125 = false) as -> by (unfold is_name_start in Hb; lia).
+    rewrite Hb.
+    change (b :: r ++ 58 :: 32 :: txt ++ rest') with ((b :: r) ++ 58 :: (32 :: txt ++ rest')).
+    rewrite take_while_stop by (auto; constructor; auto).
+    rewrite skip_ignored_id by reflexivity. change (58 =? 58) with true. cbv iota.
+    rewrite pvalue_sp. rewrite (Hp fuel rest' Hf Hfu). rewrite Ht. destruct tail; reflexivity.
+  Qed.
+
+  Lemma pobject_items items : Forall entry_ok items -> forall fuel rest,
+    (Datatypes.S (Nat.add (length items) (sum_need_e items)) <= fuel)%nat ->
+    pobject fuel (join [44; 32] (map entry_text items) ++ 125 :: rest) = Some (map entry_lit items, rest).
+  Proof.
+    induction 1 as [|it r Hit Hr IH]; intros fuel rest Hfu.
+    - destruct (fuel_S fuel) as [f ->]; [simpl in Hfu; lia|]. reflexivity.
+    - destruct it as [[[k txt] l] nd].
+      destruct (fuel_S fuel) as [f ->]; [simpl in Hfu; lia|].
+      cbn [map sum_need_e entry_need length] in *.
+      destruct r as [|it2 r'].
+      + cbn [join map].
+        rewrite (pobject_entry k txt l nd f (125 :: rest) Hit) with (tail := ([], rest)).
+        * reflexivity.
+        * simpl; auto.
+        * simpl in Hfu; lia.
+        * pose proof (IH f rest) as IH'. cbn [map join app] in IH'. apply IH'. simpl in *; lia.
+      + set (J := join [44; 32] (map entry_text (it2 :: r'))) in *.
+        assert (EJ : join [44; 32] (entry_text (k, txt, l, nd) :: map entry_text (it2 :: r'))
+                     = entry_text (k, txt, l, nd) ++ [44; 32] ++ J) by reflexivity.
+        rewrite EJ. rewrite <- !app_assoc. cbn [app].
+        rewrite (pobject_entry k txt l nd f (44 :: 32 :: J ++ 125 :: rest) Hit) with (tail := (map entry_lit (it2 :: r'), rest)).
+        * reflexivity.
+        * simpl; auto.
+        * simpl in Hfu; lia.
+        * rewrite pobject_sep. apply IH. simpl in *; lia.
+  Qed.
+
+  Lemma join_length_entries items :
+    Forall (fun it : name * bytes * lit * nat =>
+              match it with (_, txt, _, nd) => (1 <= length txt)%nat /\ (nd <= 2 * length txt)%nat end) items ->
+    (length items + sum_need_e items <= 2 * length (join (44%N :: 32%N :: nil) (map entry_text items)) + 1)%nat.
+  Proof.
+    induction 1 as [|it r Hit Hr IH]; [simpl; lia|]. destruct it as [[[k txt] l] nd]. destruct Hit as [H1 H2].
+    cbn [map sum_need_e entry_need length]. destruct (map entry_text r) as [|p ps] eqn:E.
+    - destruct r; [|discriminate]. cbn [join sum_need_e length] in *. unfold entry_text. rewrite ?app_length. cbn [length]. lia.
+    - cbn [join] in *. unfold entry_text at 1. rewrite ?app_length in *. cbn [length] in *. rewrite ?app_length in *. cbn [length] in *. lia.
+  Qed.
+
+  Lemma coerce_object_at fs : forall t inl n, strip_nn' t = StNamed n ->
+    coerce S (LObject fs) t inl = coerce S (LObject fs) (StNamed n) inl.
+  Proof.
+    induction t as [m|w IH|w IH]; intros inl n Hs; simpl in Hs.
+    - inversion Hs. reflexivity.
+    - discriminate.
+    - simpl. apply IH. exact Hs.
+  Qed.
+
+  Lemma b_eq_sym a b : b_eq a b = b_eq b a.
+  Proof.
+    unfold b_eq. destruct (bytes_eqb a b) eqn:E1, (bytes_eqb b a) eqn:E2; auto.
+    - apply bytes_eqb_eq in E1. subst. rewrite bytes_eqb_refl in E2. discriminate.
+    - apply bytes_eqb_eq in E2. subst. rewrite bytes_eqb_refl in E1. discriminate.
+  Qed.
+
+  Lemma provided_mem {A B} (k : name) (fs : list (name * A)) (g : name * A -> name * B) :
+    (forall p, fst (g p) = fst p) ->
+    existsb (fun p => b_eq (fst p) k) (map g fs) = mem k (map fst fs).
+  Proof.
+    intro Hg. unfold mem. induction fs as [|p r IH]; simpl; auto.
+    rewrite Hg, IH. rewrite b_eq_sym. reflexivity.
+  Qed.
+
+  Lemma has_dup_key_false (fs : list (name * lit)) : nodup_names (map fst fs) = true -> has_dup_key fs = false.
+  Proof.
+    unfold has_dup_key. induction fs as [|[k x] r IH]; simpl; auto. intro H. apply andb_true_iff in H as [H1 H2].
+    rewrite IH by exact H2. rewrite orb_false_r.
+    rewrite <- (map_id r) at 1. rewrite (provided_mem k r (fun p => p)) by reflexivity.
+    destruct (mem k (map fst r)); [discriminate|reflexivity].
+  Qed.
+
+  Lemma lookup_nodup {A} k (x : A) l : nodup_names (map fst l) = true -> In (k, x) l -> lookup k l = Some x.
+  Proof.
+    induction l as [|[k' x'] r IH]; simpl; [tauto|]. intros H [E|Hin].
+    - inversion E; subst. rewrite bytes_eqb_refl. reflexivity.
+    - apply andb_true_iff in H as [H1 H2]. destruct (bytes_eqb k k') eqn:E.
+      + apply bytes_eqb_eq in E. subst k'. exfalso.
+        assert (mem k (map fst r) = true) by (apply mem_in; apply in_map_iff; exists (k, x); auto).
+        rewrite H in H1. discriminate.
+      + apply IH; auto.
+  Qed.
+
+  Lemma map_case kvs : Forall (fun kv => P (snd kv)) kvs -> P (GMap kvs).
+  Proof.
+    intros Hall t Hc Hp.
+    assert (Hc' : exists n defs r d, strip_nn' t = StNamed n /\ lookup n (types S) = Some (NInput defs r true d) /\
+                    nodup_names (map fst kvs) = true /\
+                    forallb (fun kv => match kv with
+                                       | (k, x) => match lookup k defs with
+                                                   | Some dd => default_conforms S x (in_type dd)
+                                                   | None => false
+                                                   end
+                                       end) kvs = true /\
+                    forallb (fun d => mem (fst d) (map fst kvs) ||
+                                      match in_default (snd d), in_type (snd d) with
+                                      | None, StNonNull _ => false
+                                      | None, _ => true
+                                      | Some _, _ => false
+                                      end) defs = true).
+    { simpl in Hc. destruct (strip_nn' t) as [n| |]; try discriminate.
+      destruct (lookup n (types S)) as [[| |defs r rc d| | |]|] eqn:El; try discriminate.
+      destruct rc; [|discriminate]. simpl in Hc.
+      apply andb_true_iff in Hc as [Hc H3]. apply andb_true_iff in Hc as [H1 H2].
+      exists n, defs, r, d. repeat split; auto. }
+    destruct Hc' as [n [defs [r [d [Hs [Hl [Hnd [Hcs Hmiss]]]]]]]].
+    pose proof (Hinputs n defs r true d Hl) as Hnames.
+    (* every entry *)
+    assert (Hitems : exists items : list (name * bytes * lit * nat),
+               map (fun kv : name * gval => match kv with
+                             | (k, x) => match lookup k defs with
+                                         | Some dd => match marshal S x (in_type dd) with
+                                                      | MOk b => MOk (k ++ [58; 32] ++ b)
+                                                      | r => r
+                                                      end
+                                         | None => MUnmodelled
+                                         end
+                             end) kvs = map (fun it => MOk (entry_text it)) items /\
+               map entry_need items = map (fun kv => need (snd kv)) kvs /\
+               map (fun it => fst (entry_lit it)) items = map fst kvs /\
+               Forall entry_ok items /\
+               Forall (fun it : name * bytes * lit * nat =>
+                         match it with (_, txt, _, nd) => (1 <= length txt)%nat /\ (nd <= 2 * length txt)%nat end) items /\
+               Forall2 (fun it kv => exists dd, lookup (fst kv) defs = Some dd /\ fst (entry_lit it) = fst kv /\
+                                       forall inl, exists c, coerce S (snd (entry_lit it)) (in_type dd) inl = Some c /\
+                                                             cval_matches c (snd kv) = true) items kvs).
+    { clear Hc Hnd Hmiss. revert Hcs Hp. induction Hall as [|[k x] rr Hx Hr IH]; intros Hcs Hp.
+      - exists []. repeat split; constructor.
+      - simpl in Hcs. apply andb_true_iff in Hcs as [Hc1 Hc2]. destruct Hp as [Hp1 Hp2]. cbn [snd] in Hx, Hp1.
+        destruct (IH Hc2 Hp2) as [items [I1 [I2 [I2' [I3 [I4 I5]]]]]].
+        destruct (lookup k defs) as [dd|] eqn:Ek; [|discriminate].
+        destruct (Hx (in_type dd) Hc1 Hp1) as [txt [l [G1 [G2 [G3 [G4 G5]]]]]].
+        exists ((k, txt, l, need x) :: items). cbn [map fst snd entry_text entry_need entry_lit]. rewrite Ek, G1, I1, I2, I2'.
+        split; [reflexivity|]. split; [reflexivity|]. split; [reflexivity|].
+        split.
+        { constructor; auto. split; [|split; auto].
+          rewrite Forall_forall in Hnames. exact (Hnames _ (lookup_in _ _ _ Ek)). }
+        split; [constructor; auto; split; auto; destruct txt; [contradiction|simpl; lia]|].
+        constructor; auto. exists dd. cbn [fst snd entry_lit]. auto. }
+    destruct Hitems as [items [I1 [I2 [I2' [I3 [I4 I5]]]]]].
+    set (parts := map entry_text items).
+    assert (Hall' : mres_all (map (fun it : name * bytes * lit * nat => MOk (entry_text it)) items) = Some (Some parts)).
+    { unfold parts. clear. induction items as [|it rr IH]; simpl; auto. rewrite IH. reflexivity. }
+    assert (Hneed : need (GMap kvs) = Datatypes.S (Datatypes.S (Nat.add (length items) (sum_need_e items)))).
+    { cbn [need]. f_equal. f_equal.
+      assert (length kvs = length items) as -> by (rewrite <- (map_length (fun kv => need (snd kv)) kvs), <- I2, map_length; reflexivity).
+      f_equal. clear - I2. revert kvs I2. induction items as [|it rr IH]; intros [|x kvs] I2; simpl in *; try discriminate; auto.
+      inversion I2. rewrite (IH kvs) by assumption. congruence. }
+    exists (123 :: join [44; 32] parts ++ [125]), (LObject (map entry_lit items)).
+    unfold good_result. split.
+    { cbn [marshal]. rewrite strip_nn_eq, Hs, Hl. cbn [negb]. rewrite I1, Hall'. reflexivity. }
+    split; [unfold head_ok; repeat split; try reflexivity; lia|].
+    split.
+    { rewrite Hneed. pose proof (join_length_entries items I4) as H. fold parts in H. cbn [length]. rewrite app_length. simpl. lia. }
+    split.
+    { intros fuel rest Hf Hfu. rewrite Hneed in Hfu. destruct (fuel_S fuel) as [f ->]; [lia|].
+      cbn [app pvalue]. rewrite skip_ignored_id by reflexivity.
+      change (123 =? 91) with false. change (123 =? 123) with true. cbv iota.
+      rewrite <- app_assoc. cbn [app].
+      unfold parts. rewrite (pobject_items items I3 f rest) by lia. reflexivity. }
+    intro inl. rewrite (coerce_object_at _ t inl n Hs). cbn [coerce]. rewrite Hl.
+    rewrite has_dup_key_false by (rewrite map_map; rewrite I2'; exact Hnd).
+    (* the provided fields *)
+    assert (Hps : exists ps, map_opt' (fun p : name * lit => match p with
+                                             | (k, x) => match lookup k defs with
+                                                         | Some d0 => match coerce S x (in_type d0) false with
+                                                                     | Some c => Some (k, c)
+                                                                     | None => None
+                                                                     end
+                                                         | None => None
+                                                         end
+                                             end) (map entry_lit items) = Some ps /\
+                         map fst ps = map fst kvs /\
+                         Forall2 (fun p kv => fst p = fst kv /\ cval_matches (snd p) (snd kv) = true) ps kvs).
+    { clear - I5. induction I5 as [|it kv items kvs H1 H2 IH].
+      - exists []. repeat split; constructor.
+      - destruct IH as [ps [E1 [E2 E3]]]. destruct H1 as [dd [Ek [Ef Hco]]]. destruct (Hco false) as [c [E4 E5]].
+        destruct (entry_lit it) as [k l] eqn:El. cbn [fst snd] in *. subst k.
+        exists ((fst kv, c) :: ps). split; [|split].
+        + cbn [map map_opt']. rewrite El. rewrite Ek, E4, E1. reflexivity.
+        + cbn [map fst]. rewrite E2. reflexivity.
+        + constructor; auto. }
+    destruct Hps as [ps [E1 [E2 E3]]]. rewrite E1.
+    (* nothing is missing that would add or forbid anything *)
+    match goal with |- context [filter ?f defs] => set (missing := filter f defs) end.
+    assert (Hm1 : forall d0, In d0 missing -> in_default (snd d0) = None /\ match in_type (snd d0) with StNonNull _ => False | _ => True end).
+    { intros d0 Hd0. unfold missing in Hd0. apply filter_In in Hd0 as [Hin Hnot]. unfold name in *.
+      rewrite forallb_forall in Hmiss. specialize (Hmiss d0 Hin).
+      assert (Hx : existsb (fun p : name * lit => b_eq (fst p) (fst d0)) (map entry_lit items) = mem (fst d0) (map fst kvs)).
+      { rewrite <- I2'. clear. unfold mem. induction items as [|it rr IH]; simpl; auto. rewrite IH, b_eq_sym. reflexivity. }
+      apply negb_true_iff in Hnot.
+      assert (Hmem : mem (fst d0) (map fst kvs) = false) by exact (eq_trans (eq_sym Hx) Hnot).
+      apply orb_true_iff in Hmiss. destruct Hmiss as [Hm|Hmiss]; [exfalso; exact (eq_true_false_abs _ Hm Hmem)|].
+      revert Hmiss.
+      destruct (in_default (snd d0)); [discriminate|]. destruct (in_type (snd d0)); try discriminate; auto. }
+    assert (Hm2 : forallb (fun d0 : name * input_def => match in_default (snd d0), in_type (snd d0) with
+                                     | None, StNonNull _ => false
+                                     | _, _ => true
+                                     end) missing = true).
+    { apply forallb_forall. intros d0 Hd0. destruct (Hm1 d0 Hd0) as [E H]. unfold name in *. rewrite E. destruct (in_type (snd d0)); auto; contradiction. }
+    unfold name in *. rewrite Hm2. cbn [negb].
+    assert (Hm3 : flat_map (fun d0 : name * input_def => match in_default (snd d0) with
+                                         | Some v => [(fst d0, cval_of_gval v)]
+                                         | None => []
+                                         end) missing = []).
+    { clear - Hm1. induction missing as [|d0 rr IH]; simpl; auto.
+      destruct (Hm1 d0 (or_introl eq_refl)) as [E _]. unfold name in *. rewrite E. simpl. apply IH. intros; apply Hm1; right; auto. }
+    unfold name in *. rewrite Hm3, app_nil_r.
+    exists (CMap ps). split; [reflexivity|].
+    cbn [cval_matches].
+    apply andb_true_iff. split.
+    { apply Nat.eqb_eq.
+      exact (eq_trans (eq_sym (map_length fst ps)) (eq_trans (f_equal (@length _) E2) (map_length fst kvs))). }
+    assert (Hin : forall p, In p ps -> exists x, In (fst p, x) kvs /\ cval_matches (snd p) x = true).
+    { clear - E3. induction E3 as [|p kv ps kvs [H1 H2] H3 IH]; [intros ? []|].
+      intros q [<-|Hq].
+      - exists (snd kv). split; [left; destruct kv; simpl in *; subst; reflexivity|exact H2].
+      - destruct (IH q Hq) as [x [Hx1 Hx2]]. exists x. split; [right; exact Hx1|exact Hx2]. }
+    clear - Hin Hnd. induction ps as [|[k c] rr IH]; [reflexivity|].
+    destruct (Hin (k, c) (or_introl eq_refl)) as [x [Hx1 Hx2]]. cbn [fst snd] in *.
+    rewrite (lookup_nodup k x kvs Hnd Hx1). rewrite Hx2. cbn [andb]. apply IH. intros; apply Hin; right; auto.
+  Qed.
+
+  (** every conforming, printable value *)
   Theorem roundtrip_values : forall v, P v.
   Proof.
     fix IH 1. intro v. destruct v as [|z|m e txt|s|b|vs|kvs].
@@ -732,7 +1012,9 @@ Section Roundtrip.
     - apply list_case.
       exact ((fix aux (l : list gval) : Forall P l :=
                 match l with [] => Forall_nil _ | x :: r => Forall_cons x (IH x) (aux r) end) vs).
-    - intros t _ [].
+    - apply map_case.
+      exact ((fix aux (l : list (name * gval)) : Forall (fun kv => P (snd kv)) l :=
+                match l with [] => Forall_nil _ | kv :: r => Forall_cons kv (IH (snd kv)) (aux r) end) kvs).
   Qed.
 
   (** the clause of the property, for scalars, enums, lists and null *)
@@ -783,4 +1065,20 @@ Proof.
   specialize (H _ (lookup_in _ _ _ Hl)). simpl in H. apply andb_true_iff in H as [H1 H2].
   split; [apply nodup_names_spec; exact H1|].
   apply Forall_forall. intros p Hp. rewrite forallb_forall in H2. apply name_ok_b_spec. auto.
+Qed.
+
+Definition field_name_ok_b (k : name) : bool :=
+  match k with [] => false | b :: r => is_name_start b && forallb is_name_char r end.
+Definition inputs_ok_b (S : schema) : bool :=
+  forallb (fun t => match snd t with
+                    | NInput defs _ _ _ => forallb (fun p => field_name_ok_b (fst p)) defs
+                    | _ => true
+                    end) (types S).
+Lemma inputs_ok_b_spec S : inputs_ok_b S = true -> inputs_ok S.
+Proof.
+  intros H n defs r rc d Hl. unfold inputs_ok_b in H. rewrite forallb_forall in H.
+  specialize (H _ (lookup_in _ _ _ Hl)). simpl in H. rewrite forallb_forall in H.
+  apply Forall_forall. intros p Hp. specialize (H p Hp). unfold field_name_ok_b in H. unfold field_name_ok.
+  destruct (fst p) as [|b rr]; [discriminate|]. apply andb_true_iff in H as [H1 H2]. split; auto.
+  apply Forall_forall. rewrite forallb_forall in H2. exact H2.
 Qed.
